@@ -137,6 +137,10 @@ theorem makeSlice_len {β γ : Type} (l : List γ) (z : β) : Go.makeSlice (l.le
   have : ¬ ((l.length : Int) < 0) := by omega
   simp [Go.makeSlice, this]
 
+theorem makeSlice_nonneg {β : Type} (n : Int) (z : β) (hn : 0 ≤ n) : Go.makeSlice n z = .ok (List.replicate n.toNat z) := by
+  have : ¬ (n < 0) := by omega
+  simp [Go.makeSlice, this, pure_eq_ok]
+
 theorem copySlice_replicate {β : Type} (l : List β) (z : β) : Go.copySlice (List.replicate l.length z) l = l := by
   simp [Go.copySlice]
 
@@ -172,14 +176,115 @@ theorem set_append_self (cells : List (Option (List Nat))) (v v') :
 theorem get_set_self (h : Heap) (c : Nat) (v) (hc : c < h.cells.length) : (h.set c v).get c = v := by
   simp [Heap.get_set, hc]
 
+theorem idx_error {β : Type} (l : List β) (i : Int) (hi : i < 0 ∨ (l.length : Int) ≤ i) : Go.idx l i = .error .index := by
+  unfold Go.idx
+  rw [dif_neg (by omega)]; rfl
+
+theorem idx_map_ok (e : List Nat) (i : Int) (h0 : 0 ≤ i) (h1 : i < e.length) :
+    Go.idx (e.map Int.ofNat) i = .ok ((e.getD i.toNat 0 : Nat) : Int) := by
+  have h2 : i.toNat < e.length := by omega
+  unfold Go.idx
+  rw [dif_pos (by simp; omega)]
+  simp [pure_eq_ok, List.getD_eq_getElem?_getD, List.getElem?_eq_getElem h2]
+
+theorem idx_getD (l : List Int) (i : Int) (h0 : 0 ≤ i) (h1 : i < l.length) :
+    Go.idx l i = .ok (l.getD i.toNat 0) := by
+  have h2 : i.toNat < l.length := by omega
+  unfold Go.idx
+  rw [dif_pos (by omega)]
+  simp [pure_eq_ok, List.getD_eq_getElem?_getD, List.getElem?_eq_getElem h2]
+
+theorem sliceSet_ok {β : Type} (l : List β) (i : Int) (v : β) (h0 : 0 ≤ i) (h1 : i < l.length) :
+    Go.sliceSet l i v = .ok (l.set i.toNat v) := by
+  unfold Go.sliceSet
+  rw [if_pos (by omega)]; rfl
+
+theorem span_eq (e : List Nat) (k : Nat) : clusterSpan e k = (cOff e k, cOff e (k + 1)) := by
+  rw [← clusterSpan_fst]; simp [clusterSpan, cOff]
+
+/-! ### range loops -/
+
+theorem idx_of_getElem? {β : Type} {l : List β} {k : Nat} {x : β} (hk : l[k]? = some x) : Go.idx l (k : Int) = .ok x := by
+  obtain ⟨hlt, rfl⟩ := List.getElem?_eq_some_iff.mp hk
+  unfold Go.idx
+  rw [dif_pos (by omega)]
+  simp [pure_eq_ok]
+
+/-- a range loop as a fold over index and element -/
+def rangeFold {β σ : Type} (step : Nat → β → σ → σ) : Nat → List β → σ → σ
+  | _, [], s => s
+  | k, x :: xs, s => rangeFold step (k + 1) xs (step k x s)
+
+/-- a range loop whose body neither touches the heap nor panics on the elements of `data` -/
+theorem forRangeAux_pure {β σ : Type} (body : Int → β → σ → HM σ) (step : Nat → β → σ → σ) (data : List β)
+    (hb : ∀ (k : Nat) (x : β) (s : σ) (h : Heap), data[k]? = some x → body k x s h = (h, .ok (step k x s), [])) :
+    ∀ (xs pre : List β) (s : σ) (h : Heap), data = pre ++ xs →
+      forRangeAux body (pre.length : Int) xs s h = (h, .ok (rangeFold step pre.length xs s), []) := by
+  intro xs
+  induction xs with
+  | nil => intro pre s h _; rfl
+  | cons x xs ih =>
+    intro pre s h hd
+    have hk : data[pre.length]? = some x := by rw [hd]; simp
+    have := ih (pre ++ [x]) (step pre.length x s) h (by simp [hd])
+    simp only [List.length_append, List.length_cons, List.length_nil, Nat.zero_add, Int.natCast_add, Int.cast_ofNat_Int] at this
+    unfold forRangeAux
+    rw [run_bind_ok (hb pre.length x s h hk), prep_nil]
+    exact this
+
+theorem forRangeM_pure {β σ : Type} (body : Int → β → σ → HM σ) (step : Nat → β → σ → σ) (data : List β)
+    (hb : ∀ (k : Nat) (x : β) (s : σ) (h : Heap), data[k]? = some x → body k x s h = (h, .ok (step k x s), []))
+    (s : σ) (h : Heap) : forRangeM data body s h = (h, .ok (rangeFold step 0 data s), []) :=
+  forRangeAux_pure body step data hb data [] s h rfl
+
+/-! ### `for` loops -/
+
+theorem whileM_zero {σ : Type} (cond : σ → HM Bool) (body : σ → HM σ) (s : σ) :
+    whileM 0 cond body s = HGo.panic .fuel := rfl
+
+theorem whileM_succ {σ : Type} (n : Nat) (cond : σ → HM Bool) (body : σ → HM σ) (s : σ) :
+    whileM (n + 1) cond body s = (cond s >>= fun b => if b then (body s >>= fun s' => whileM n cond body s') else pure s) := rfl
+
+/-- a `for` loop as a pure iteration: `none` = out of fuel -/
+def iter {σ : Type} (c : σ → Bool) (f : σ → σ) : Nat → σ → Option σ
+  | 0, _ => none
+  | n + 1, s => if c s then iter c f n (f s) else some s
+
+/-- a loop whose condition and body neither touch the heap nor panic, under an invariant `P` of the state -/
+theorem whileM_pure {σ : Type} (cond : σ → HM Bool) (body : σ → HM σ) (c : σ → Bool) (f : σ → σ) (P : σ → Prop)
+    (h : Heap)
+    (hc : ∀ s, P s → cond s h = (h, .ok (c s), []))
+    (hb : ∀ s, P s → c s = true → body s h = (h, .ok (f s), []))
+    (hP : ∀ s, P s → c s = true → P (f s)) :
+    ∀ (fuel : Nat) (s : σ), P s →
+      whileM fuel cond body s h = (match iter c f fuel s with
+        | some s' => (h, .ok s', [])
+        | none => (h, .error .fuel, [])) := by
+  intro fuel
+  induction fuel with
+  | zero => intro s _; rfl
+  | succ n ih =>
+    intro s hs
+    rw [whileM_succ, run_bind_ok (hc s hs), prep_nil]
+    cases hcs : c s with
+    | false => simp [iter, hcs, run_pure]
+    | true =>
+      simp only [if_true, iter, hcs]
+      rw [run_bind_ok (hb s hs hcs), prep_nil]
+      exact ih (f s) (hP s hs hcs)
+
 /-- evaluate the generated code on a heap: monad, primitives, heap operations -/
 macro "gem_run" : tactic => `(tactic|
-  simp [run_okM_bind, run_bind, prep_mk, prep_nil, prep_prep, run_pure, run_liftR, run_panic, run_ite, run_newCell, run_load, run_load_none, okM_run, Heap.alloc, makeSlice_len, copySlice_replicate, Go.sliceLen, olen, olist, oidx,
+  simp [run_okM_bind, run_bind, prep_mk, prep_nil, prep_prep, run_pure, run_liftR, run_panic, run_ite, run_newCell, run_load, run_load_none, okM_run, Heap.alloc, makeSlice_len, makeSlice_nonneg, copySlice_replicate, Go.sliceLen, olen, olist, oidx,
     toCell_some_map, toCell_none, toCell_replicate, toCell_ofCell, run_store', run_update', run_newCellOf', ocopy_some, ocopy_none, copySlice_replicate_map, take_length_map, Go.copySlice, map_ok, map_error, pure_eq_ok, throw_eq_error, get_append_self, set_append_self, cellOf, omake, -bind_pure_comp])
 
 /-- `gem_run` with additional facts -/
 macro "gem_run" "[" ts:Lean.Parser.Tactic.simpLemma,* "]" : tactic => `(tactic|
-  simp [$ts,*, run_okM_bind, run_bind, prep_mk, prep_nil, prep_prep, run_pure, run_liftR, run_panic, run_ite, run_newCell, run_load, run_load_none, okM_run, Heap.alloc, makeSlice_len, copySlice_replicate, Go.sliceLen, olen, olist, oidx,
+  simp [$ts,*, run_okM_bind, run_bind, prep_mk, prep_nil, prep_prep, run_pure, run_liftR, run_panic, run_ite, run_newCell, run_load, run_load_none, okM_run, Heap.alloc, makeSlice_len, makeSlice_nonneg, copySlice_replicate, Go.sliceLen, olen, olist, oidx,
     toCell_some_map, toCell_none, toCell_replicate, toCell_ofCell, run_store', run_update', run_newCellOf', ocopy_some, ocopy_none, copySlice_replicate_map, take_length_map, Go.copySlice, map_ok, map_error, pure_eq_ok, throw_eq_error, get_append_self, set_append_self, cellOf, omake, -bind_pure_comp])
+
+/-- split every `if`/`match`, then close each case -/
+macro "gem_close" : tactic => `(tactic|
+  ((repeat' split) <;> (first | rfl | (simp_all; done) | grind)))
 
 end RosedVerif.GenCodeEq
